@@ -229,7 +229,11 @@ func (c *MapCodec) readMapEntry(mp, k unsafe.Pointer, data []byte) (int, error) 
 	// the value should be. We're going to unmarshal into this directly
 	val := mapassign(unpackEFace(c.rtype).data, mp, k)
 
-	if offset < len(data) {
+	// The value is present if data remains after the key, or if the entry's
+	// first field was the value itself (the key was omitted as zero). In the
+	// second case the payload may be empty - a struct whose fields are all zero
+	// - which must be read like any other value, not taken for "no value".
+	if offset < len(data) || index == 2 {
 		if index == 1 {
 			offset, fieldEnd, _, wt, err = c.readTagAndLength(data, offset)
 			if err != nil {
